@@ -36,6 +36,7 @@ var (
 	fRandom   = flag.Int("random", 20, "c07: additional random schedules per program")
 	fNQ       = flag.Int("nq", 2, "c07: number of queries of the model (NQ)")
 	fNN       = flag.Int("nn", 2, "c07: number of responder names of the model (NN)")
+	fIDBase   = flag.Int("idbase", 0, "added to every trace id (several runs validated as one file)")
 )
 
 type summary map[string]int
